@@ -1644,6 +1644,34 @@ fn make_receive(param_type: Type, body: Option<Expression>) -> Term {
 // - !var             - Single source (variable/process)
 // - !@p              - Single source (spawn)
 // - !1000            - Single source (timeout literal)
+/// `! [...]`, after the `!`: the general form, a list of source chains. The bracket is parsed
+/// once, as a tuple's field list (a superset of a source list). Unnamed chains without a trailing
+/// comma are the sources. Anything else a tuple can hold is the other reading — a bare `!`
+/// followed by that tuple — and is left to the caller. A bracket that is not even a tuple fails
+/// here: it would fail again as the next term, and trying doubles the work at every nesting level.
+fn select_sources(input: Span) -> IResult<Span, Term> {
+    let (rest, (fields, trailing_comma)) = delimited(
+        tuple((hspace1, char('['), wsc)),
+        pair(
+            separated_list0(tuple((wsc, char(','), wsc)), tuple_field),
+            opt(pair(wsc, char(','))),
+        ),
+        pair(wsc, char(']')),
+    )(input)?;
+    let bare = Ok((input, Term::Select(None, Spanned::default())));
+    if trailing_comma.is_some() {
+        return bare;
+    }
+    let mut sources = Vec::with_capacity(fields.len());
+    for field in fields {
+        match (field.name, field.value) {
+            (None, FieldValue::Chain(chain)) => sources.push(chain),
+            _ => return bare,
+        }
+    }
+    Ok((rest, Term::Select(Some(sources), Spanned::default())))
+}
+
 fn select_term(input: Span) -> IResult<Span, Term> {
     let start = input;
     let (rest, term) = preceded(
@@ -1651,14 +1679,7 @@ fn select_term(input: Span) -> IResult<Span, Term> {
         alt((
             // ` [...]` - Tuple of source chains (general form). The leading space distinguishes it
             // from the tight single-source shorthands, so `! f` is not a single-source form.
-            map(
-                delimited(
-                    tuple((hspace1, char('['), wsc)),
-                    separated_list0(tuple((wsc, char(','), wsc)), chain),
-                    pair(wsc, char(']')),
-                ),
-                |sources| Term::Select(Some(sources), Spanned::default()),
-            ),
+            select_sources,
             // (type) - parenthesized receive type (body-less identity receive).
             map(
                 delimited(pair(char('('), wsc), type_definition, pair(wsc, char(')'))),
@@ -1681,8 +1702,12 @@ fn select_term(input: Span) -> IResult<Span, Term> {
             map(spawn_term, single_source),
             // literal (timeout)
             map(literal, |l| single_source(Term::Literal(l))),
-            // nothing - bare ! for postfix form (uses chained value)
-            success(Term::Select(None, Spanned::default())),
+            // nothing - bare ! for postfix form (uses chained value). Not before ` [`: that is
+            // `select_sources`' case alone, which has just failed.
+            preceded(
+                not(peek(pair(hspace1, char('[')))),
+                success(Term::Select(None, Spanned::default())),
+            ),
         )),
     )(input)?;
     // Attach the `!` span to whatever select form was produced, for hover.
